@@ -33,7 +33,8 @@ def check(ctx, prog, stats, samples):
     byid = {d["id"]: d for d in prog["defs"]}
     from . import resolve_common as R
     mms = R.model_defs(prog["defs"])
-    keys = [[[[0, D.cls_of_value(w, dec_val(e, w))] for e in call["vals"]], []] for call in prog["calls"]]
+    keys = [[[[0, D.cls_of_value(w, dec_val(e, w))] for e in call["vals"]],
+             [[int(k), [0, D.cls_of_value(w, dec_val(e, w))]] for k, e in call.get("kwvals", {}).items()]] for call in prog["calls"]]
     art = model.run_cases([[22, w.encode(), mms, keys]])[0]
     for call, r, artifact in zip(prog["calls"], res, art):
         stats["evaluations"] += 1
@@ -50,6 +51,11 @@ def check(ctx, prog, stats, samples):
                 ok = py_isinstance(rec[f"a{i}"], b.ty(t))
                 if ok is not True:
                     ctx.violation(f"method {mid} entered with a{i}={rec[f'a{i}']!r} but isinstance(value, annotation) is {ok}", case)
+            for (k, t, req) in d.get("kw", []):
+                if rec.get(f"k{k}") is not progs.DEFAULT:
+                    ok = py_isinstance(rec[f"k{k}"], b.ty(t))
+                    if ok is not True:
+                        ctx.violation(f"method {mid} entered with k{k}={rec[f'k{k}']!r} but isinstance(value, annotation) is {ok}", case)
         # oracle 2: user conditions only asked about instances of their bound
         bounds = {}
 
@@ -71,7 +77,7 @@ def check(ctx, prog, stats, samples):
         if r["impl"] == ["exc"]:
             ctx.violation(f"an internal exception escaped from the dispatcher: {r['impl_raw']}", case)
         # oracle 3: the documented rule (Python reading of docs/dependent.md and the property text)
-        if not any(d.get("body") in ("nextv",) for d in prog["defs"]):
+        if not any(d.get("body") in ("nextv",) for d in prog["defs"]) and not call.get("kwvals"):
             vs = [dec_val(e, w) for e in call["vals"]]
             exp = D.py_spec_dep(w, b, prog["defs"], vs)
             if exp is None:
@@ -162,7 +168,7 @@ def run(ctx):
     samples = []
     n = 80 if ctx.quick() else 4000
     for _ in range(n):
-        prog = D.gen_dep_program(ctx.rng, steer=ctx.rng.choice([None, None, None, "literals"]))
+        prog = D.gen_dep_program(ctx.rng, steer=ctx.rng.choice([None, None, None, "literals", "mixed", "kwonly"]))
         check(ctx, prog, stats, samples)
         stats["programs"] += 1
         if len(ctx.violations) > 5:
